@@ -1,6 +1,7 @@
 (* C20 - Sequence-number unwrapping and NTP conversion are exact and monotone.
    Statements only; proofs are in Proofs/. *)
-From IV Require Import Base.Word Model.Unwrapper Model.Ntp Proofs.UnwrapperProofs Proofs.NtpProofs Check.C20Check.
+From IV Require Import Base.Word Model.Unwrapper Model.Ntp Proofs.UnwrapperProofs Proofs.NtpProofs Check.C20Check
+  Generated.GoCores Proofs.GeneratedEq.
 
 (* every output is non-negative, for every input sequence *)
 Theorem C20_unwrap_nonneg : forall l, all_u16 l -> Forall (fun r => 0 <= r) (unwrap_all None l).
@@ -55,3 +56,16 @@ Theorem C20_ntp32_roundtrip_bits : forall k1 t ref,
   combine32 (to_ntp32 k1 t) (to_ntp k1 ref) = to_ntp k1 t - to_ntp k1 t mod 65536.
 Proof. exact ntp32_roundtrip_bits. Qed.
 Print Assumptions C20_ntp32_roundtrip_bits.
+
+(* the unwrapper model IS what the translator tools/go2coq derives from
+   internal/sequencenumber/unwrapper.go on this run (state = (init, lastUnwrapped)) *)
+Theorem C20_unwrapper_model_is_source : forall init last i,
+  g_sequencenumber_Unwrapper_Unwrap init last i =
+    (snd (unwrap (st_of init last) i), true, snd (unwrap (st_of init last) i)) /\
+  fst (unwrap (st_of init last) i) = Some (snd (unwrap (st_of init last) i)).
+Proof. exact gen_Unwrap_eq. Qed.
+Print Assumptions C20_unwrapper_model_is_source.
+
+Theorem C20_isNewer_model_is_source : forall v p, g_sequencenumber_isNewer v p = is_newer v p.
+Proof. exact gen_isNewer_eq. Qed.
+Print Assumptions C20_isNewer_model_is_source.
